@@ -25,19 +25,19 @@ var scopePkgs = []string{"", "common", "policy", "internal", "internal/util", "r
 const minPackages = 21
 
 type Program struct {
-	RepoDir string
-	Fset    *token.FileSet
-	Pkgs    []*packages.Package
-	Prog    *ssa.Program
-	ByPath  map[string]*packages.Package
-	SSAPkg  map[string]*ssa.Package
-	Funcs   []*ssa.Function          // universe: all functions with bodies in scope packages (origins)
-	InScope map[*ssa.Function]bool   // function belongs to a scope package
-	byName  map[string]*ssa.Function // "pkg.(Recv).Name" / "pkg.Name" / with $n for anon
-	aliased map[*ssa.Function]bool   // functions registered under an upstream (reference) name
-	soleImpl map[*types.TypeName]*types.Named // unexported interface -> its only implementer (nil: none or several)
-	seamField  map[string]*seam // see seams.go
-	seamGlobal map[string]*seam
+	RepoDir       string
+	Fset          *token.FileSet
+	Pkgs          []*packages.Package
+	Prog          *ssa.Program
+	ByPath        map[string]*packages.Package
+	SSAPkg        map[string]*ssa.Package
+	Funcs         []*ssa.Function                  // universe: all functions with bodies in scope packages (origins)
+	InScope       map[*ssa.Function]bool           // function belongs to a scope package
+	byName        map[string]*ssa.Function         // "pkg.(Recv).Name" / "pkg.Name" / with $n for anon
+	aliased       map[*ssa.Function]bool           // functions registered under an upstream (reference) name
+	soleImpl      map[*types.TypeName]*types.Named // unexported interface -> its only implementer (nil: none or several)
+	seamField     map[string]*seam                 // see seams.go
+	seamGlobal    map[string]*seam
 	afterFuncLike map[*ssa.Function]int // wrappers of time.AfterFunc -> index of the callback parameter
 }
 
